@@ -49,6 +49,9 @@ type EvalCtx struct {
 	// machine-range guard of unsigned bound variables in assumed universals (sound because values of
 	// unsigned types are always in range) which keeps instantiation independent of range facts.
 	pol int
+	// calleeCounts: when the postcondition of a callee is assumed at a call, calls(X) and sends() in it are the
+	// callee's own counts (fresh values; the caller's counters are advanced by them afterwards)
+	calleeCounts map[string]string
 }
 
 func (c *EvalCtx) errf(format string, args ...interface{}) {
@@ -768,11 +771,23 @@ func (c *EvalCtx) evalCall(e *Expr) TVal {
 		if e.Args[0].Op == "sel" {
 			name = exprString(e.Args[0])
 		}
+		if c.calleeCounts != nil {
+			if v, ok := c.calleeCounts["calls:"+name]; ok {
+				return c.mk(v, sInt, ti)
+			}
+			return c.mk("0", sInt, ti)
+		}
 		if v, ok := c.st.cells[cellKey{0, "calls:" + name}]; ok {
 			return c.mk(v.T, sInt, ti)
 		}
 		return c.mk("0", sInt, ti)
 	case "sends":
+		if c.calleeCounts != nil {
+			if v, ok := c.calleeCounts["sends"]; ok {
+				return c.mk(v, sInt, ti)
+			}
+			return c.mk("0", sInt, ti)
+		}
 		if v, ok := c.st.cells[cellKey{0, "sends"}]; ok {
 			return c.mk(v.T, sInt, ti)
 		}
